@@ -475,3 +475,5 @@ def run(ctx):
     rule_b(ctx, R)
     rule_cd(ctx, R, sector, gauss_site)
     rule_ef(ctx, R, sector, gauss_site, scan_site)
+    from .kernels import run_c14g
+    run_c14g(ctx)
